@@ -266,6 +266,16 @@ pub fn sched_rand(n: u64) -> u64 {
 
 fn pick(g: &mut Inner) -> Option<Tid> {
     loop {
+        // every timer that has expired fires, not just one: threads whose deadlines coincide (clients released at the
+        // same instant, a cleaning pass and a request timeout) are runnable together and race each other
+        let now = g.now;
+        for t in g.threads.iter_mut() {
+            if t.st == St::Blocked && t.wake_at.map_or(false, |w| w <= now) {
+                t.st = St::Runnable;
+                t.timed_out = true;
+                t.wake_at = None;
+            }
+        }
         let runnable: Vec<Tid> = g
             .threads
             .iter()
@@ -320,13 +330,11 @@ fn pick(g: &mut Inner) -> Option<Tid> {
             }
         }
         match best {
-            Some((w, i)) => {
+            Some((w, _)) => {
+                // advance the clock; the loop's first step wakes every thread whose deadline has been reached
                 if w > g.now {
                     g.now = w;
                 }
-                g.threads[i].st = St::Runnable;
-                g.threads[i].timed_out = true;
-                g.threads[i].wake_at = None;
             }
             None => {
                 let names: Vec<(String, &'static str)> = g
@@ -653,7 +661,10 @@ pub fn run(cfg: EngineCfg, root: impl FnOnce() + Send + 'static) -> Report {
     {
         let mut g = lock();
         let limit = Duration::from_secs(cfg.wall_limit_s);
-        let t0 = std::time::Instant::now();
+        // the limit applies to wall-clock time *without progress* (no hand-off, no logged event): on a loaded machine a
+        // hand-off between two OS threads can take a scheduler quantum, and a long run must not be mistaken for a hang
+        let mut t0 = std::time::Instant::now();
+        let mut seen = (g.handoffs, g.seq);
         while !g.done {
             let (ng, to) = match DONE_CV.wait_timeout(g, Duration::from_millis(500)) {
                 Ok(x) => x,
@@ -661,11 +672,15 @@ pub fn run(cfg: EngineCfg, root: impl FnOnce() + Send + 'static) -> Report {
             };
             g = ng;
             let _ = to;
+            if (g.handoffs, g.seq) != seen {
+                seen = (g.handoffs, g.seq);
+                t0 = std::time::Instant::now();
+            }
             if !g.done && t0.elapsed() > limit {
                 let cur = g.current;
                 let name = g.threads.get(cur).map(|t| t.name.clone()).unwrap_or_default();
                 eprintln!(
-                    "HARNESS-ERROR: wall-clock watchdog: run exceeded {:?}; current thread {:?} ({}), sim now {} ns, handoffs {}, shutdown {}",
+                    "HARNESS-ERROR: wall-clock watchdog: no progress for {:?}; current thread {:?} ({}), sim now {} ns, handoffs {}, shutdown {}",
                     limit, cur, name, g.now, g.handoffs, g.shutdown
                 );
                 for (i, t) in g.threads.iter().enumerate() {
